@@ -31,6 +31,9 @@ pub enum Base {
     Handlers,
     /// streamed PUBLISH half received, handler blocked in read()
     Streaming,
+    /// streamed PUBLISH half received, its payload handed to a task of its own that is blocked in read_all()
+    /// while the handler waits elsewhere (cancelling the handler does not release that reader)
+    StreamingDetached,
     /// outbound: one send awaiting its ack, one parked on the window, one ready() future
     Sends,
     /// the inbound stream of `Handlers` delivered one byte per write (fault at every byte offset)
@@ -91,7 +94,7 @@ fn script_for(cfg: &TdCfg) -> Vec<BaseStep> {
             }
             v
         }
-        Base::Streaming => {
+        Base::Streaming | Base::StreamingDetached => {
             let p = rf::publish(1, 1, "t", &[0x81, 0x82, 0x83, 0x84, 0x85, 0x86, 0x87, 0x88]);
             let b = rf::encode(ver, &p);
             let cut = b.len() - 4;
@@ -342,13 +345,39 @@ impl Scenario for Td {
                 }
             }
         }
+        // a publish sent through the non-blocking API completes through the callback: acknowledged, or
+        // reported once with the disconnected flag set
+        {
+            let a = self.app.borrow();
+            for (j, s) in a.iter().enumerate() {
+                let sent = s.results.iter().filter(|r| r.as_str() == "sent").count();
+                let acked = s.results.iter().filter(|r| r.starts_with("ok:") && r.ends_with(":cb")).count();
+                let gone = s.results.iter().filter(|r| r.starts_with("err:cb-disconnected")).count();
+                // (the peer of this scenario never acknowledges a publish: "acknowledged" can only be wrong)
+                if sent > 0 && (acked != 0 || gone != sent) {
+                    return Err(Violation::new(
+                        "callback-not-once",
+                        self.wit(),
+                        format!("sender {j} handed over {sent} publish(es) through the non-blocking API; its callback reported {acked} acknowledged and {gone} disconnected: {}", self.detail()),
+                    ));
+                }
+            }
+        }
         // payload reader blocked in read() observed an error
         if self.cfg.base == Base::Streaming {
             let entered = log.iter().any(|(_, r)| matches!(r, Rec::HEnter { .. }));
             let read_err = log.iter().any(|(_, r)| matches!(r, Rec::HPayload { err: Some(_), .. }));
             let dropped = log.iter().any(|(_, r)| matches!(r, Rec::HDrop { .. }));
-            if entered && !read_err && !dropped {
+            if entered && !read_err && (!dropped || std::env::var("VERIF_C07_STRICT_READER").is_ok()) {
                 return Err(Violation::new("reader-left-waiting", self.wit(), format!("handler blocked in read() neither saw an error nor was cancelled: {}", self.detail())));
+            }
+        }
+        // a reader that lives outside the handler is not released by cancelling the handler: it must see an error
+        if self.cfg.base == Base::StreamingDetached {
+            let entered = log.iter().any(|(_, r)| matches!(r, Rec::HEnter { .. }));
+            let reader_done = log.iter().any(|(_, r)| matches!(r, Rec::HPayload { .. }));
+            if entered && !reader_done {
+                return Err(Violation::new("reader-left-waiting", self.wit(), format!("a task blocked in read_all() on the taken payload neither got the payload nor an error: {}", self.detail())));
             }
         }
         // handlers still running are cancelled only after the Stop notification has been handled
@@ -372,7 +401,7 @@ pub fn configs(tier: Tier) -> Vec<TdCfg> {
     let mut v = Vec::new();
     let causes = [Cause::PeerClose, Cause::ReadErr, Cause::WriteErr, Cause::Garbage, Cause::ProtoViolation, Cause::HandlerErr, Cause::ProtoErr, Cause::KeepAlive, Cause::Close, Cause::ForceClose];
     for (ver, role) in crate::c05::roles() {
-        for base in [Base::Handlers, Base::Streaming, Base::Sends, Base::SendsCb, Base::Bytes, Base::Backpressure, Base::OutStream] {
+        for base in [Base::Handlers, Base::Streaming, Base::StreamingDetached, Base::Sends, Base::SendsCb, Base::Bytes, Base::Backpressure, Base::OutStream] {
             for cause in causes {
                 if base == Base::Bytes && !matches!(cause, Cause::PeerClose | Cause::ReadErr | Cause::ForceClose | Cause::Garbage) {
                     continue;
@@ -388,7 +417,7 @@ pub fn configs(tier: Tier) -> Vec<TdCfg> {
                     continue;
                 }
                 // bytes written in the middle of a half-received payload are payload, not a new (bad) packet
-                if base == Base::Streaming && matches!(cause, Cause::Garbage | Cause::ProtoViolation) {
+                if matches!(base, Base::Streaming | Base::StreamingDetached) && matches!(cause, Cause::Garbage | Cause::ProtoViolation) {
                     continue;
                 }
                 let mut ep = EpCfg::new(ver, role);
@@ -407,6 +436,13 @@ pub fn configs(tier: Tier) -> Vec<TdCfg> {
                 if base == Base::Backpressure {
                     ep.write_buf = Some((16, 4, 16));
                 }
+                if base == Base::StreamingDetached {
+                    // the client's protocol-service Publish message does not give its payload away (no take_payload)
+                    if role == Role::Client {
+                        continue;
+                    }
+                    ep.read_mode = ReadMode::Detached;
+                }
                 let _ = tier;
                 v.push(TdCfg { ep, base, cause });
             }
@@ -422,7 +458,7 @@ pub fn run(tier: Tier) -> i32 {
         ck.explore::<Td>("teardown", i, c, &ecfg);
     }
     ck.rule = format!(
-        "4 roles x 7 base schedules (the window slot held by a publish sent through the non-blocking API with a send and a ready() future parked behind it; an outbound QoS 1 publish being streamed by the application - header and first chunk written, second chunk owed, another sender parked behind it; write back-pressure active - peer not reading, 16-byte write buffer over its high watermark, a publish handler in flight - with the peer reading again after the fault; the publish/subscribe stream delivered one byte per write for peer close / read error / force-close at every byte offset; two gated publish handlers + gated SUBSCRIBE; streamed PUBLISH half received with the handler blocked in read(); one send awaiting its ack + one parked on the window + one ready() future) x 10 termination causes (peer close, read error, write error, undecodable bytes, protocol-violating packet, publish handler error, protocol handler error, keep-alive expiry, sink.close(), sink.force_close()); the cause is injected before/after every step of the base schedule at quiescence and, with {} deviation(s), between any two task polls; afterwards virtual time advances up to 60 s and gates are never opened; oracle: exactly one Stop of the class the statement assigns to the cause, connection task completed, every send/ready future resolved, blocked reader saw an error or was cancelled, handlers cancelled only after the Stop was handled, nothing left executing",
+        "4 roles x 8 base schedules (the window slot held by a publish sent through the non-blocking API with a send and a ready() future parked behind it; an outbound QoS 1 publish being streamed by the application - header and first chunk written, second chunk owed, another sender parked behind it; write back-pressure active - peer not reading, 16-byte write buffer over its high watermark, a publish handler in flight - with the peer reading again after the fault; the publish/subscribe stream delivered one byte per write for peer close / read error / force-close at every byte offset; two gated publish handlers + gated SUBSCRIBE; streamed PUBLISH half received with the handler blocked in read(); the same (servers) with the payload taken over by a task of its own that is blocked in read_all(); one send awaiting its ack + one parked on the window + one ready() future) x 10 termination causes (peer close, read error, write error, undecodable bytes, protocol-violating packet, publish handler error, protocol handler error, keep-alive expiry, sink.close(), sink.force_close()); the cause is injected before/after every step of the base schedule at quiescence and, with {} deviation(s), between any two task polls; afterwards virtual time advances up to 60 s and gates are never opened; oracle: exactly one Stop of the class the statement assigns to the cause, connection task completed, every send/ready future resolved, blocked reader saw an error or was cancelled (a reader outside the handler: saw an error), a publish sent through the non-blocking API had its callback invoked exactly once with the disconnected flag, handlers cancelled only after the Stop was handled, nothing left executing",
         ecfg.max_dev
     );
     ck.assumptions = vec![
